@@ -497,6 +497,103 @@ MUTANTS = {
         "      return quantizers.quantized_po2(\n          bits=self.bits,\n"
         "          max_value=self.max_val_po2 if self.max_val_po2 > 2 else "
         "None,\n")]),
+    # pooling arm: the activation quantizer of the pooling entry is looked
+    # up under the wrong class name
+    "m96_pooling_activation_from_other_entry": dict(expect=["C12"], edits=[
+        E(U,
+          "      # Adds activation to config.\n"
+          "      quantizer = get_config(\n"
+          "          quantizer_config, layer, q_name, "
+          "\"activation_quantizer\")\n\n"
+          "      if quantizer:\n        layer_config[\"activation\"] = "
+          "quantizer\n      else:\n        quantize_activation("
+          "layer_config, activation_bits)\n\n    registered_name",
+          "      # Adds activation to config.\n"
+          "      quantizer = get_config(\n"
+          "          quantizer_config, layer, \"QAveragePooling2D\", "
+          "\"activation_quantizer\")\n\n"
+          "      if quantizer:\n        layer_config[\"activation\"] = "
+          "quantizer\n      else:\n        quantize_activation("
+          "layer_config, activation_bits)\n\n    registered_name")]),
+    # the composite layer forgets its folding mode when serialised
+    "m97_folded_layer_config_without_folding_mode": dict(
+        expect=["C13"], edits=[
+            E("qkeras/qconv2d_batchnorm.py",
+              "    config = {\"ema_freeze_delay\": self.ema_freeze_delay,\n"
+              "              \"folding_mode\": self.folding_mode}\n",
+              "    config = {\"ema_freeze_delay\": self.ema_freeze_delay}\n"
+              )]),
+    # copy-and-paste slip in the per-process cost polynomials
+    "m98_sram_cost_from_dram_entry": dict(expect=["C19"], edits=[
+        E("qkeras/qtools/settings.py",
+          "      self.sram_rd = np.poly1d(cfg_setting[process][\"sram_rd\"])",
+          "      self.sram_rd = np.poly1d(cfg_setting[process][\"dram_rd\"])"
+          )]),
+    # the unfolded depthwise layer is built without the strides
+    "m99_unfolded_layer_loses_strides": dict(expect=["C15"], edits=[
+        E("qkeras/bn_folding_utils.py",
+          "  new_layer_cfg[\"use_bias\"] = True\n",
+          "  new_layer_cfg[\"use_bias\"] = True\n"
+          "  new_layer_cfg.pop(\"strides\", None)\n")]),
+    # QTools.pe hands the two placements over in the wrong order
+    "m100_qtools_pe_swaps_placements": dict(expect=["C19"], edits=[
+        E("qkeras/qtools/run_qtools.py",
+          "        self._model, self._layer_map, weights_on_memory,\n"
+          "        activations_on_memory, min_sram_size,\n",
+          "        self._model, self._layer_map, activations_on_memory,\n"
+          "        weights_on_memory, min_sram_size,\n")]),
+    # the graph is built before the selected process is applied
+    "m101_qtools_graph_before_process": dict(expect=["C19"], edits=[
+        E("qkeras/qtools/run_qtools.py",
+          "    cfg.update(process, config_settings)\n\n",
+          ""),
+        E("qkeras/qtools/run_qtools.py",
+          "    # qgraph.PrintGraph(graph)\n",
+          "    cfg.update(process, config_settings)\n")]),
+    # Clip serialises its lower bound twice
+    "m102_clip_config_loses_upper_bound": dict(expect=["C13"], edits=[
+        E("qkeras/qlayers.py",
+          "    return {\"min_value\": self.min_value, \"max_value\": "
+          "self.max_value}\n",
+          "    return {\"min_value\": self.min_value, \"max_value\": "
+          "-self.min_value - 1}\n")]),
+    # the default weight constraint clips inside the quantizer's range
+    "m103_default_constraint_too_tight": dict(expect=["C13"], edits=[
+        E("qkeras/qlayers.py",
+          "    max_value = max(1, quantizer.max()) if hasattr(quantizer, "
+          "\"max\") else 1.0\n",
+          "    max_value = min(1, quantizer.max()) if hasattr(quantizer, "
+          "\"max\") else 1.0\n")]),
+    # a rebuilt QInitializer forgets to scale
+    "m104_qinitializer_config_drops_use_scale": dict(expect=["C13"], edits=[
+        E("qkeras/qlayers.py",
+          "      'use_scale'   : config['use_scale'],\n",
+          "      'use_scale'   : False,\n")]),
+    # QConv2D reports its kernel quantizer as the bias quantizer too
+    "m105_quantization_config_wrong_entry": dict(expect=["C10"], edits=[
+        E("qkeras/qconvolutional.py",
+          "        \"bias_quantizer\":\n            str("
+          "self.bias_quantizer_internal),\n",
+          "        \"bias_quantizer\":\n            str("
+          "self.kernel_quantizer_internal),\n", matches=3, which=1)]),
+    "m106_quantization_dictionary_by_class": dict(expect=["C10"], edits=[
+        E("qkeras/autoqkeras/utils.py",
+          "      q_dict[layer.name] = layer.get_quantization_config()\n",
+          "      q_dict[layer.__class__.__name__] = "
+          "layer.get_quantization_config()\n")]),
+    # a pooling layer hands out a copy of its quantizer list without the
+    # quantizer; a recurrent wrapper hands out the cell's list reversed
+    "m107_pooling_reports_no_quantizer": dict(expect=["C11"], edits=[
+        E("qkeras/qpooling.py",
+          "  def get_quantizers(self):\n    return self.quantizers\n",
+          "  def get_quantizers(self):\n    return self.quantizers[1:]\n",
+          matches=2, which=0)]),
+    "m108_rnn_reports_reversed_quantizers": dict(expect=["C11", "C14"],
+                                                 edits=[
+        E("qkeras/qrecurrent.py",
+          "  def get_quantizers(self):\n    return self.cell.quantizers\n",
+          "  def get_quantizers(self):\n    return self.cell.quantizers[::-1]"
+          "\n", matches=3, which=1)]),
     "m95_po2_operand_converted_in_place": dict(expect=["C17"], edits=[
         E(QO + "adder_factory.py",
           "    local_quantizer_1 = copy.deepcopy(quantizer_1)\n"
@@ -820,6 +917,29 @@ BENIGN = {
     "b42_cached_parse_copied": dict(props=["C10", "C09"], edits=os.path.join(
         os.path.dirname(os.path.abspath(__file__)), "benign_patches",
         "b42_cached_parse_copied.diff")),
+    # the benign twin of C15-seed9: unfolding from a static table of config
+    # keys (no throw-away template layer) that lists dilation_rate for both
+    # classes
+    "b46_unfold_from_key_table": dict(props=["C15", "C13"], edits=os.path.join(
+        os.path.dirname(os.path.abspath(__file__)), "benign_patches",
+        "b46_unfold_from_key_table.diff")),
+    # the benign twin of C16-seed9: the memoised exponent range is dropped
+    # by every method that re-sizes the operand
+    "b47_exponent_range_memo_invalidated": dict(
+        props=["C16", "C17", "C18"], edits=os.path.join(
+            os.path.dirname(os.path.abspath(__file__)), "benign_patches",
+            "b47_exponent_range_memo_invalidated.diff")),
+    # the benign twin of C19-seed9: the eight per-process polynomials applied
+    # in a loop, each under its own try
+    "b48_process_costs_in_a_loop": dict(props=["C19"], edits=os.path.join(
+        os.path.dirname(os.path.abspath(__file__)), "benign_patches",
+        "b48_process_costs_in_a_loop.diff")),
+    # the benign twin of C03-seed9: max_value setters that re-derive the
+    # exponent range correctly for both po2 classes
+    "b45_po2_max_value_setters": dict(props=["C03", "C09", "C10"],
+                                      edits=os.path.join(
+        os.path.dirname(os.path.abspath(__file__)), "benign_patches",
+        "b45_po2_max_value_setters.diff")),
     # the defensive copies are not needed as long as the implementations do
     # not write to their operands: dropping them changes nothing observable
     "b43_adder_without_defensive_copy": dict(props=["C17", "C18"], edits=[E(
